@@ -1,5 +1,638 @@
 /-
-C04 — property theorems (stub; nothing proved yet).
+C04 — diffusion conserves every component and honours boundary conditions.
+Property theorems about `KawinV.Diffusion` (hand model of Diffusion.py / DiffusionParameters.py /
+Iterators.py / Homogenization.py line 133, tied to the source by tools/corr/C04.py).
+α is any linearly ordered field; the mesh size N, the number of elements, the interior face
+fluxes `F` (any function of a call counter and of the state) and the step list are arbitrary.
 -/
+import KawinV.Model.Diffusion
+import Mathlib.Tactic.Ring
+import Mathlib.Tactic.Linarith
+import Mathlib.Tactic.FieldSimp
+import Mathlib.Tactic.NormNum
+import Mathlib.Algebra.Order.Field.Basic
+import Mathlib.Algebra.BigOperators.Group.Finset.Basic
+import Mathlib.Algebra.BigOperators.Intervals
+import Mathlib.Algebra.BigOperators.Field
+
+set_option linter.unusedSectionVars false
+set_option linter.unusedVariables false
+set_option linter.unusedSimpArgs false
+
 namespace KawinV.Props.C04
+open KawinV.Diffusion
+open Finset
+
+variable {α : Type} [Field α] [LinearOrder α] [IsStrictOrderedRing α]
+
+/-! ### budget of the rate of change (telescoping) -/
+
+/-- **budget**: `Σ_i dXdt_i = (J_0 − J_N)/dz` for any face fluxes and any N (all interior faces cancel). -/
+theorem sum_dXdt' (N : Nat) (dz : α) (J : Nat → α) :
+    ∑ i ∈ range N, dXdt dz J i = (J 0 - J N) / dz := by
+  unfold dXdt
+  have h : ∀ i, -(J (i+1) - J i) / dz = (J i - J (i+1)) / dz := by intro i; ring
+  simp only [h]
+  rw [← sum_div, sum_range_sub']
+
+/-- **budget**, the form in the property text: `dz·Σ_i dXdt_i = J_0 − J_N`. -/
+theorem sum_dXdt (N : Nat) (dz : α) (hdz : dz ≠ 0) (J : Nat → α) :
+    dz * ∑ i ∈ range N, dXdt dz J i = J 0 - J N := by
+  rw [sum_dXdt']; field_simp
+
+/-- the rate of change of node i involves its own two faces only -/
+theorem dXdt_local (dz : α) (J J' : Nat → α) (i : Nat) (h0 : J i = J' i) (h1 : J (i+1) = J' (i+1)) :
+    dXdt dz J i = dXdt dz J' i := by
+  unfold dXdt; rw [h0, h1]
+
+/-! ### boundary conditions on the fluxes -/
+
+/-- **flux BC, left**: face 0 carries the element's own left value -/
+theorem applyBC_left_flux (N : Nat) (hN : 1 ≤ N) (bc : BC α) (J : Nat → α) (h : bc.ltype = .flux) :
+    applyBC N bc J 0 = bc.lval := by
+  have : ¬ (0 = N) := by omega
+  simp [applyBC, this, h]
+
+/-- **flux BC, right**: face N carries the element's own right value -/
+theorem applyBC_right_flux (N : Nat) (bc : BC α) (J : Nat → α) (h : bc.rtype = .flux) :
+    applyBC N bc J N = bc.rval := by
+  simp [applyBC, h]
+
+/-- interior faces are not touched by the boundary conditions -/
+theorem applyBC_interior (N : Nat) (bc : BC α) (J : Nat → α) (j : Nat) (h0 : 0 < j) (hN : j ≠ N) :
+    applyBC N bc J j = J j := by
+  have : ¬ (j = 0) := by omega
+  simp [applyBC, this, hN]
+
+/-- **composition BC, left**: face 0 copies face 1 -/
+theorem applyBC_left_comp (N : Nat) (hN : 1 ≤ N) (bc : BC α) (J : Nat → α) (h : bc.ltype = .comp) :
+    applyBC N bc J 0 = J 1 := by
+  have : ¬ (0 = N) := by omega
+  simp [applyBC, this, h]
+
+/-- **composition BC, right**: face N copies face N−1 (of the row after the left write) -/
+theorem applyBC_right_comp (N : Nat) (hN : 1 ≤ N) (bc : BC α) (J : Nat → α) (h : bc.rtype = .comp) :
+    applyBC N bc J N = applyBC N bc J (N-1) := by
+  have : ¬ (N - 1 = N) := by omega
+  simp [applyBC, this, h]
+
+/-- **per element**: the rate of change of element e uses the boundary condition and the flux row of
+element e only. -/
+theorem rhs_element (N : Nat) (dz : α) (bc bc' : Nat → BC α) (J J' : Nat → Nat → α) (e : Nat)
+    (hb : bc e = bc' e) (hJ : J e = J' e) : rhs N dz bc J e = rhs N dz bc' J' e := by
+  unfold rhs; rw [hb, hJ]
+
+/-- closed end faces: flux condition with value 0 on both sides -/
+def Closed (bc : BC α) : Prop := bc.ltype = .flux ∧ bc.lval = 0 ∧ bc.rtype = .flux ∧ bc.rval = 0
+
+/-! ### fixed-composition node: rate of change 0 for any fluxes -/
+
+theorem rhs_left_comp (N : Nat) (hN : 2 ≤ N) (dz : α) (bc : Nat → BC α) (J : Nat → Nat → α) (e : Nat)
+    (h : (bc e).ltype = .comp) : rhs N dz bc J e 0 = 0 := by
+  unfold rhs dXdt
+  rw [applyBC_left_comp N (by omega) _ _ h, applyBC_interior N _ _ (0+1) (by omega) (by omega)]
+  simp
+
+theorem rhs_right_comp (N : Nat) (hN : 1 ≤ N) (dz : α) (bc : Nat → BC α) (J : Nat → Nat → α) (e : Nat)
+    (h : (bc e).rtype = .comp) : rhs N dz bc J e (N-1) = 0 := by
+  unfold rhs dXdt
+  have : N - 1 + 1 = N := by omega
+  rw [this, applyBC_right_comp N hN _ _ h]
+  simp
+
+/-- the hypothesis `2 ≤ N` of `rhs_left_comp` cannot be dropped: on a one-node mesh with a left
+composition condition and a right flux condition the single node is driven by the right flux
+(`np.linspace(..., 1)` meshes are rejected by the constructor, `z[1]` does not exist). -/
+example : rhs 1 (1:ℚ) (fun _ => ⟨.comp, 0, .flux, 1⟩) (fun _ _ => 0) 0 0 = -1 := by
+  simp [rhs, dXdt, applyBC]
+
+/-! ### one step -/
+
+/-- BC-applied face fluxes of element e for a raw flux table -/
+def Jbc (cfg : Cfg α) (Jraw : Nat → Nat → α) (e : Nat) : Nat → α := applyBC cfg.N (cfg.bc e) (Jraw e)
+
+/-- the states handed to the four RK4 flux evaluations -/
+def rk4X1 (cfg : Cfg α) (F : Nat → State α → Nat → Nat → α) (c : Nat) (x : State α) (dt : α) : State α :=
+  axpy x (rhs cfg.N cfg.dz cfg.bc (F c x)) (dt / 2)
+def rk4X2 (cfg : Cfg α) (F : Nat → State α → Nat → Nat → α) (c : Nat) (x : State α) (dt : α) : State α :=
+  axpy x (rhs cfg.N cfg.dz cfg.bc (F (c+1) (rk4X1 cfg F c x dt))) (dt / 2)
+def rk4X3 (cfg : Cfg α) (F : Nat → State α → Nat → Nat → α) (c : Nat) (x : State α) (dt : α) : State α :=
+  axpy x (rhs cfg.N cfg.dz cfg.bc (F (c+2) (rk4X2 cfg F c x dt))) dt
+
+/-- BC-applied face fluxes of the stages of one step (stage 0 only for Euler) -/
+def stageJ (cfg : Cfg α) (F : Nat → State α → Nat → Nat → α) (c : Nat) (x : State α) (dt : α)
+    (s : Nat) (e : Nat) : Nat → α :=
+  match s with
+  | 0 => Jbc cfg (F c x) e
+  | 1 => Jbc cfg (F (c+1) (rk4X1 cfg F c x dt)) e
+  | 2 => Jbc cfg (F (c+2) (rk4X2 cfg F c x dt)) e
+  | _ => Jbc cfg (F (c+3) (rk4X3 cfg F c x dt)) e
+
+/-- the b-weighted face flux of one step: the stage-0 flux for Euler, `(J1 + 2 J2 + 2 J3 + J4)/6` for RK4 -/
+def Jbar (cfg : Cfg α) (sch : Scheme) (F : Nat → State α → Nat → Nat → α) (c : Nat) (x : State α) (dt : α)
+    (e : Nat) (j : Nat) : α :=
+  match sch with
+  | .euler => stageJ cfg F c x dt 0 e j
+  | .rk4 => rk4Comb (stageJ cfg F c x dt 0 e j) (stageJ cfg F c x dt 1 e j)
+      (stageJ cfg F c x dt 2 e j) (stageJ cfg F c x dt 3 e j)
+
+theorem rk4Raw_eq (cfg : Cfg α) (F : Nat → State α → Nat → Nat → α) (c : Nat) (x : State α) (dt : α) :
+    rk4Raw cfg F c x dt = axpy x (fun e i => rk4Comb
+      (dXdt cfg.dz (stageJ cfg F c x dt 0 e) i) (dXdt cfg.dz (stageJ cfg F c x dt 1 e) i)
+      (dXdt cfg.dz (stageJ cfg F c x dt 2 e) i) (dXdt cfg.dz (stageJ cfg F c x dt 3 e) i)) dt := rfl
+
+theorem sum_axpy (N : Nat) (x k : State α) (h : α) (e : Nat) :
+    ∑ i ∈ range N, axpy x k h e i = ∑ i ∈ range N, x e i + (∑ i ∈ range N, k e i) * h := by
+  unfold axpy; rw [sum_add_distrib, sum_mul]
+
+theorem sum_rk4Comb (N : Nat) (k1 k2 k3 k4 : Nat → α) :
+    ∑ i ∈ range N, rk4Comb (k1 i) (k2 i) (k3 i) (k4 i)
+      = rk4Comb (∑ i ∈ range N, k1 i) (∑ i ∈ range N, k2 i) (∑ i ∈ range N, k3 i) (∑ i ∈ range N, k4 i) := by
+  unfold rk4Comb
+  rw [← sum_div, sum_add_distrib, sum_add_distrib, sum_add_distrib, ← mul_sum, ← mul_sum]
+
+/-- **one step, Euler**: the mesh sum of element e changes by `(J_0 − J_N)·dt/dz`. -/
+theorem euler_budget (cfg : Cfg α) (F : Nat → State α → Nat → Nat → α) (c : Nat) (x : State α) (dt : α) (e : Nat) :
+    ∑ i ∈ range cfg.N, eulerRaw cfg F c x dt e i - ∑ i ∈ range cfg.N, x e i
+      = (Jbc cfg (F c x) e 0 - Jbc cfg (F c x) e cfg.N) * dt / cfg.dz := by
+  unfold eulerRaw
+  rw [sum_axpy]
+  unfold rhs
+  rw [sum_dXdt']
+  unfold Jbc; ring
+
+/-- **one step, RK4**: the mesh sum changes by `(J̄_0 − J̄_N)·dt/dz` with the b-weighted stage
+boundary fluxes `J̄ = (J1 + 2 J2 + 2 J3 + J4)/6`. -/
+theorem rk4_budget (cfg : Cfg α) (F : Nat → State α → Nat → Nat → α) (c : Nat) (x : State α) (dt : α) (e : Nat) :
+    ∑ i ∈ range cfg.N, rk4Raw cfg F c x dt e i - ∑ i ∈ range cfg.N, x e i
+      = (Jbar cfg .rk4 F c x dt e 0 - Jbar cfg .rk4 F c x dt e cfg.N) * dt / cfg.dz := by
+  rw [rk4Raw_eq, sum_axpy, sum_rk4Comb]
+  simp only [sum_dXdt']
+  unfold Jbar rk4Comb; simp only []; ring
+
+/-- **one step, either iterator, before the clip** -/
+theorem stepRaw_budget (cfg : Cfg α) (sch : Scheme) (F : Nat → State α → Nat → Nat → α) (c : Nat)
+    (x : State α) (dt : α) (e : Nat) :
+    ∑ i ∈ range cfg.N, stepRaw cfg sch F c x dt e i - ∑ i ∈ range cfg.N, x e i
+      = (Jbar cfg sch F c x dt e 0 - Jbar cfg sch F c x dt e cfg.N) * dt / cfg.dz := by
+  cases sch with
+  | euler => exact euler_budget cfg F c x dt e
+  | rk4 => exact rk4_budget cfg F c x dt e
+
+/-! ### the clip in postProcess -/
+
+theorem clip_of_mem (lo hi v : α) (h1 : lo ≤ v) (h2 : v ≤ hi) : clip lo hi v = v := by
+  unfold clip
+  simp [not_lt.mpr h1, not_lt.mpr h2]
+
+theorem clip_bounds (lo hi v : α) (h : lo ≤ hi) : lo ≤ clip lo hi v ∧ clip lo hi v ≤ hi := by
+  unfold clip
+  by_cases h1 : v < lo
+  · simp only [h1, if_true]
+    simp [not_lt.mpr h, h]
+  · simp only [h1, if_false]
+    by_cases h2 : hi < v
+    · simp [h2, h]
+    · simp [h2, not_lt.mp h1, not_lt.mp h2]
+
+/-- all nodes of element e inside `[minC, 1 − minC]` -/
+def InBounds (cfg : Cfg α) (x : State α) (e : Nat) : Prop :=
+  ∀ i, i < cfg.N → cfg.minC ≤ x e i ∧ x e i ≤ 1 - cfg.minC
+
+/-- **bounds**: after `postProcess` every value (every element, every node) is in `[minC, 1 − minC]`. -/
+theorem postProcess_bounds (cfg : Cfg α) (h : cfg.minC ≤ 1 - cfg.minC) (x : State α) (e i : Nat) :
+    cfg.minC ≤ postProcess cfg x e i ∧ postProcess cfg x e i ≤ 1 - cfg.minC :=
+  clip_bounds _ _ _ h
+
+theorem step_bounds (cfg : Cfg α) (h : cfg.minC ≤ 1 - cfg.minC) (sch : Scheme)
+    (F : Nat → State α → Nat → Nat → α) (c : Nat) (x : State α) (dt : α) (e i : Nat) :
+    cfg.minC ≤ step cfg sch F c x dt e i ∧ step cfg sch F c x dt e i ≤ 1 - cfg.minC :=
+  postProcess_bounds cfg h _ e i
+
+/-- **bounds over a run**: after any positive number of steps, or from a state already in bounds. -/
+theorem run_bounds (cfg : Cfg α) (h : cfg.minC ≤ 1 - cfg.minC) (sch : Scheme)
+    (F : Nat → State α → Nat → Nat → α) (dts : List α) (c : Nat) (x : State α) (e i : Nat)
+    (hx : dts ≠ [] ∨ (cfg.minC ≤ x e i ∧ x e i ≤ 1 - cfg.minC)) :
+    cfg.minC ≤ run cfg sch F c x dts e i ∧ run cfg sch F c x dts e i ≤ 1 - cfg.minC := by
+  induction dts generalizing c x with
+  | nil => rcases hx with hx | hx; exact absurd rfl hx; exact hx
+  | cons dt r ih =>
+    simp only [run]
+    exact ih _ _ (Or.inr (step_bounds cfg h sch F c x dt e i))
+
+/-- **one step incl. postProcess**, clip inactive on element e -/
+theorem step_budget (cfg : Cfg α) (sch : Scheme) (F : Nat → State α → Nat → Nat → α) (c : Nat)
+    (x : State α) (dt : α) (e : Nat) (hin : InBounds cfg (stepRaw cfg sch F c x dt) e) :
+    ∑ i ∈ range cfg.N, step cfg sch F c x dt e i - ∑ i ∈ range cfg.N, x e i
+      = (Jbar cfg sch F c x dt e 0 - Jbar cfg sch F c x dt e cfg.N) * dt / cfg.dz := by
+  rw [← stepRaw_budget]
+  congr 1
+  apply sum_congr rfl
+  intro i hi
+  have := hin i (mem_range.mp hi)
+  exact clip_of_mem _ _ _ this.1 this.2
+
+/-! ### any number of steps -/
+
+/-- the clip is inactive for element e at every step of the run -/
+def ClipInactive (cfg : Cfg α) (sch : Scheme) (F : Nat → State α → Nat → Nat → α) (e : Nat) :
+    Nat → State α → List α → Prop
+  | _, _, [] => True
+  | c, x, dt :: r => InBounds cfg (stepRaw cfg sch F c x dt) e ∧
+      ClipInactive cfg sch F e (c + calls sch) (step cfg sch F c x dt) r
+
+/-- accumulated boundary exchange of element e along a run: `Σ_steps (J̄_0 − J̄_N)·dt/dz` -/
+def runNet (cfg : Cfg α) (sch : Scheme) (F : Nat → State α → Nat → Nat → α) (e : Nat) :
+    Nat → State α → List α → α
+  | _, _, [] => 0
+  | c, x, dt :: r => (Jbar cfg sch F c x dt e 0 - Jbar cfg sch F c x dt e cfg.N) * dt / cfg.dz +
+      runNet cfg sch F e (c + calls sch) (step cfg sch F c x dt) r
+
+/-- **budget over any number of steps** (induction over the step list) -/
+theorem run_budget (cfg : Cfg α) (sch : Scheme) (F : Nat → State α → Nat → Nat → α) (e : Nat)
+    (dts : List α) (c : Nat) (x : State α) (hin : ClipInactive cfg sch F e c x dts) :
+    ∑ i ∈ range cfg.N, run cfg sch F c x dts e i
+      = ∑ i ∈ range cfg.N, x e i + runNet cfg sch F e c x dts := by
+  induction dts generalizing c x with
+  | nil => simp [run, runNet]
+  | cons dt r ih =>
+    simp only [run, runNet]
+    obtain ⟨h1, h2⟩ := hin
+    rw [ih _ _ h2]
+    have := step_budget cfg sch F c x dt e h1
+    linarith
+
+theorem rk4Comb_zero : rk4Comb (0:α) 0 0 0 = 0 := by unfold rk4Comb; simp
+
+theorem Jbar_closed (cfg : Cfg α) (hN : 1 ≤ cfg.N) (sch : Scheme) (F : Nat → State α → Nat → Nat → α)
+    (c : Nat) (x : State α) (dt : α) (e : Nat) (hc : Closed (cfg.bc e)) :
+    Jbar cfg sch F c x dt e 0 = 0 ∧ Jbar cfg sch F c x dt e cfg.N = 0 := by
+  obtain ⟨h1, h2, h3, h4⟩ := hc
+  have hs0 : ∀ s, stageJ cfg F c x dt s e 0 = 0 := by
+    intro s; unfold stageJ Jbc
+    split <;> rw [applyBC_left_flux _ hN _ _ h1, h2]
+  have hsN : ∀ s, stageJ cfg F c x dt s e cfg.N = 0 := by
+    intro s; unfold stageJ Jbc
+    split <;> rw [applyBC_right_flux _ _ _ h3, h4]
+  cases sch with
+  | euler => exact ⟨hs0 0, hsN 0⟩
+  | rk4 => simp only [Jbar, hs0, hsN, rk4Comb_zero, and_self]
+
+theorem runNet_closed (cfg : Cfg α) (hN : 1 ≤ cfg.N) (sch : Scheme) (F : Nat → State α → Nat → Nat → α)
+    (e : Nat) (hc : Closed (cfg.bc e)) (dts : List α) (c : Nat) (x : State α) :
+    runNet cfg sch F e c x dts = 0 := by
+  induction dts generalizing c x with
+  | nil => rfl
+  | cons dt r ih =>
+    simp only [runNet]
+    obtain ⟨h0, hn⟩ := Jbar_closed cfg hN sch F c x dt e hc
+    rw [ih, h0, hn]; simp
+
+/-- **closed system**: with flux value 0 on both sides the mesh sum of the element is constant over
+any number of steps (Euler and RK4), as long as the clip is inactive. -/
+theorem closed_system (cfg : Cfg α) (hN : 1 ≤ cfg.N) (sch : Scheme) (F : Nat → State α → Nat → Nat → α)
+    (e : Nat) (hc : Closed (cfg.bc e)) (dts : List α) (c : Nat) (x : State α)
+    (hin : ClipInactive cfg sch F e c x dts) :
+    ∑ i ∈ range cfg.N, run cfg sch F c x dts e i = ∑ i ∈ range cfg.N, x e i := by
+  rw [run_budget cfg sch F e dts c x hin, runNet_closed cfg hN sch F e hc]; simp
+
+/-! ### fixed-composition node through every stage and step -/
+
+theorem axpy_zero (x k : State α) (h : α) (e i : Nat) (hk : k e i = 0) : axpy x k h e i = x e i := by
+  unfold axpy; rw [hk]; simp
+
+/-- the rate of change at node `i` vanishes for every flux table -/
+def Pinned (cfg : Cfg α) (e i : Nat) : Prop := ∀ J : Nat → Nat → α, rhs cfg.N cfg.dz cfg.bc J e i = 0
+
+theorem pinned_left (cfg : Cfg α) (hN : 2 ≤ cfg.N) (e : Nat) (h : (cfg.bc e).ltype = .comp) :
+    Pinned cfg e 0 := fun J => rhs_left_comp _ hN _ _ J e h
+
+theorem pinned_right (cfg : Cfg α) (hN : 1 ≤ cfg.N) (e : Nat) (h : (cfg.bc e).rtype = .comp) :
+    Pinned cfg e (cfg.N - 1) := fun J => rhs_right_comp _ hN _ _ J e h
+
+/-- **every stage**: each RK4 stage state carries the old value at a pinned node -/
+theorem stages_fixed (cfg : Cfg α) (F : Nat → State α → Nat → Nat → α) (c : Nat) (x : State α) (dt : α)
+    (e i : Nat) (hp : Pinned cfg e i) :
+    rk4X1 cfg F c x dt e i = x e i ∧ rk4X2 cfg F c x dt e i = x e i ∧ rk4X3 cfg F c x dt e i = x e i :=
+  ⟨axpy_zero _ _ _ _ _ (hp _), axpy_zero _ _ _ _ _ (hp _), axpy_zero _ _ _ _ _ (hp _)⟩
+
+theorem stepRaw_fixed (cfg : Cfg α) (sch : Scheme) (F : Nat → State α → Nat → Nat → α) (c : Nat)
+    (x : State α) (dt : α) (e i : Nat) (hp : Pinned cfg e i) :
+    stepRaw cfg sch F c x dt e i = x e i := by
+  cases sch with
+  | euler => exact axpy_zero _ _ _ _ _ (hp _)
+  | rk4 =>
+    show rk4Raw cfg F c x dt e i = x e i
+    unfold rk4Raw
+    apply axpy_zero
+    simp only [hp _, rk4Comb_zero]
+
+theorem step_fixed (cfg : Cfg α) (sch : Scheme) (F : Nat → State α → Nat → Nat → α) (c : Nat)
+    (x : State α) (dt : α) (e i : Nat) (hp : Pinned cfg e i)
+    (hx : cfg.minC ≤ x e i ∧ x e i ≤ 1 - cfg.minC) :
+    step cfg sch F c x dt e i = x e i := by
+  unfold step postProcess
+  rw [stepRaw_fixed cfg sch F c x dt e i hp]
+  exact clip_of_mem _ _ _ hx.1 hx.2
+
+/-- **fixed node, whole run**: a pinned node whose value is inside the bounds keeps it over any
+number of steps, for Euler and RK4 and any fluxes. -/
+theorem run_fixed (cfg : Cfg α) (sch : Scheme) (F : Nat → State α → Nat → Nat → α) (e i : Nat)
+    (hp : Pinned cfg e i) (dts : List α) (c : Nat) (x : State α)
+    (hx : cfg.minC ≤ x e i ∧ x e i ≤ 1 - cfg.minC) :
+    run cfg sch F c x dts e i = x e i := by
+  induction dts generalizing c x with
+  | nil => rfl
+  | cons dt r ih =>
+    simp only [run]
+    have hs := step_fixed cfg sch F c x dt e i hp hx
+    rw [ih _ _ (by rw [hs]; exact hx), hs]
+
+/-- left composition condition ⇒ node 0 fixed for the whole run -/
+theorem run_fixed_left (cfg : Cfg α) (hN : 2 ≤ cfg.N) (sch : Scheme) (F : Nat → State α → Nat → Nat → α)
+    (e : Nat) (h : (cfg.bc e).ltype = .comp) (dts : List α) (c : Nat) (x : State α)
+    (hx : cfg.minC ≤ x e 0 ∧ x e 0 ≤ 1 - cfg.minC) :
+    run cfg sch F c x dts e 0 = x e 0 :=
+  run_fixed cfg sch F e 0 (pinned_left cfg hN e h) dts c x hx
+
+/-- right composition condition ⇒ node N−1 fixed for the whole run -/
+theorem run_fixed_right (cfg : Cfg α) (hN : 1 ≤ cfg.N) (sch : Scheme) (F : Nat → State α → Nat → Nat → α)
+    (e : Nat) (h : (cfg.bc e).rtype = .comp) (dts : List α) (c : Nat) (x : State α)
+    (hx : cfg.minC ≤ x e (cfg.N-1) ∧ x e (cfg.N-1) ≤ 1 - cfg.minC) :
+    run cfg sch F c x dts e (cfg.N-1) = x e (cfg.N-1) :=
+  run_fixed cfg sch F e _ (pinned_right cfg hN e h) dts c x hx
+
+/-! ### setup and consecutive solve calls -/
+
+theorem shiftClamp_lower (minC nAll v : α) : minC ≤ shiftClamp minC nAll v := by
+  unfold shiftClamp clampLo
+  split
+  · exact le_refl _
+  · next h => exact not_lt.mp h
+
+theorem shiftClamp_upper (minC nAll v : α) (h0 : 0 ≤ minC) (hn : 1 ≤ nAll) (hm : minC ≤ 1 - minC)
+    (hv : v ≤ 1) : shiftClamp minC nAll v ≤ 1 - minC := by
+  unfold shiftClamp clampLo
+  split
+  · exact hm
+  · unfold shift
+    split
+    · have : minC ≤ nAll * minC := by nlinarith
+      linarith
+    · next h1 h2 => linarith [not_lt.mp h2]
+
+/-- the value a composition condition gives the end node before the shift -/
+theorem applyBCInit_left (N : Nat) (hN : 2 ≤ N) (bc : Nat → BC α) (x : State α) (e : Nat)
+    (h : (bc e).ltype = .comp) : applyBCInit N bc x e 0 = (bc e).lval := by
+  have : ¬ (0 = N - 1) := by omega
+  simp [applyBCInit, this, h]
+
+theorem applyBCInit_right (N : Nat) (bc : Nat → BC α) (x : State α) (e : Nat)
+    (h : (bc e).rtype = .comp) : applyBCInit N bc x e (N-1) = (bc e).rval := by
+  simp [applyBCInit, h]
+
+/-- a successful first `setup` shift-clamps the built profile with the composition conditions applied -/
+theorem setup_first (cfg : Cfg α) (built : State α) (s s' : MState α) (hs : s.isSetup = false)
+    (h : setup cfg built s = .ok s') :
+    s'.isSetup = true ∧ ∀ e i, s'.x e i = shiftClamp cfg.minC cfg.nAll (applyBCInit cfg.N cfg.bc built e i) := by
+  unfold setup at h
+  simp only [hs, Bool.false_eq_true, if_false] at h
+  by_cases hb : sumExceeds cfg (applyBCInit cfg.N cfg.bc built) = true
+  · simp [hb] at h
+  · simp only [hb, if_false] at h
+    cases h; exact ⟨rfl, fun e i => rfl⟩
+
+/-- **bounds after setup** -/
+theorem setup_bounds (cfg : Cfg α) (built : State α) (s s' : MState α) (hs : s.isSetup = false)
+    (h : setup cfg built s = .ok s') (e i : Nat) :
+    cfg.minC ≤ s'.x e i ∧
+    (0 ≤ cfg.minC → 1 ≤ cfg.nAll → cfg.minC ≤ 1 - cfg.minC → applyBCInit cfg.N cfg.bc built e i ≤ 1 →
+      s'.x e i ≤ 1 - cfg.minC) := by
+  obtain ⟨_, hx⟩ := setup_first cfg built s s' hs h
+  rw [hx]
+  exact ⟨shiftClamp_lower _ _ _, fun h0 hn hm hv => shiftClamp_upper _ _ _ h0 hn hm hv⟩
+
+/-- **setup is idempotent**: on a model that is already set up, `setup` (when it does not raise)
+returns the state unchanged, whatever the profile description. -/
+theorem setup_idempotent (cfg : Cfg α) (built : State α) (s s' : MState α) (hs : s.isSetup = true)
+    (h : setup cfg built s = .ok s') : s' = s := by
+  unfold setup at h
+  simp only [hs, if_true] at h
+  by_cases hb : sumExceeds cfg s.x = true
+  · simp [hb] at h
+  · simp only [hb, if_false] at h
+    cases h
+    cases s; simp_all
+
+/-- any successful `setup` leaves the model set up -/
+theorem setup_isSetup (cfg : Cfg α) (built : State α) (s s' : MState α)
+    (h : setup cfg built s = .ok s') : s'.isSetup = true := by
+  unfold setup at h
+  simp only [] at h
+  by_cases hb : sumExceeds cfg (if s.isSetup = true then s.x else applyBCInit cfg.N cfg.bc built) = true
+  · simp [hb] at h
+  · simp only [hb, if_false] at h
+    cases h; rfl
+
+/-- a second `setup` after a first one leaves `x` unchanged -/
+theorem setup_twice (cfg : Cfg α) (built built' : State α) (s s1 s2 : MState α)
+    (h1 : setup cfg built s = .ok s1) (h2 : setup cfg built' s1 = .ok s2) : s2.x = s1.x := by
+  rw [setup_idempotent cfg built' s1 s2 (setup_isSetup cfg built s s1 h1) h2]
+
+theorem run_append (cfg : Cfg α) (sch : Scheme) (F : Nat → State α → Nat → Nat → α)
+    (a b : List α) (c : Nat) (x : State α) :
+    run cfg sch F c x (a ++ b) = run cfg sch F (c + calls sch * a.length) (run cfg sch F c x a) b := by
+  induction a generalizing c x with
+  | nil => simp [run]
+  | cons d r ih =>
+    simp only [List.cons_append, run, List.length_cons]
+    rw [ih]
+    congr 1
+    ring
+
+/-- **consecutive solve calls**: on a model that is set up, any history of `solve` calls (that does not
+raise) is the same as one uninterrupted run over the concatenated step lists — the calls in between
+change nothing. -/
+theorem solves_eq_run (cfg : Cfg α) (sch : Scheme) (F : Nat → State α → Nat → Nat → α) (built : State α)
+    (hist : List (List α)) (c : Nat) (s : MState α) (hs : s.isSetup = true) (c' : Nat) (s' : MState α)
+    (h : solves cfg sch F built (c, s) hist = .ok (c', s')) :
+    s'.x = run cfg sch F c s.x hist.flatten ∧ c' = c + calls sch * hist.flatten.length ∧ s'.isSetup = true := by
+  induction hist generalizing c s with
+  | nil =>
+    simp only [solves] at h
+    cases h
+    simp [run, hs]
+  | cons dts r ih =>
+    simp only [solves] at h
+    unfold solveCall at h
+    cases hset : setup cfg built s with
+    | error m => simp [hset] at h
+    | ok s1 =>
+      simp only [hset] at h
+      have hid := setup_idempotent cfg built s s1 hs hset
+      subst hid
+      obtain ⟨hx, hc, hi⟩ := ih _ _ rfl h
+      refine ⟨?_, ?_, hi⟩
+      · simp only [List.flatten_cons, run_append]
+        exact hx
+      · simp only [List.flatten_cons, List.length_append]
+        rw [hc]; ring
+
+/-- **closed system over consecutive solve calls**: the mesh sum after any history of solve calls equals
+the mesh sum the model had when the history started (clip inactive along the way). -/
+theorem closed_system_solves (cfg : Cfg α) (hN : 1 ≤ cfg.N) (sch : Scheme)
+    (F : Nat → State α → Nat → Nat → α) (built : State α) (e : Nat) (hc : Closed (cfg.bc e))
+    (hist : List (List α)) (c : Nat) (s : MState α) (hs : s.isSetup = true) (c' : Nat) (s' : MState α)
+    (h : solves cfg sch F built (c, s) hist = .ok (c', s'))
+    (hin : ClipInactive cfg sch F e c s.x hist.flatten) :
+    ∑ i ∈ range cfg.N, s'.x e i = ∑ i ∈ range cfg.N, s.x e i := by
+  rw [(solves_eq_run cfg sch F built hist c s hs c' s' h).1]
+  exact closed_system cfg hN sch F e hc _ c s.x hin
+
+/-- **fixed node over consecutive solve calls** -/
+theorem fixed_node_solves (cfg : Cfg α) (sch : Scheme) (F : Nat → State α → Nat → Nat → α)
+    (built : State α) (e i : Nat) (hp : Pinned cfg e i)
+    (hist : List (List α)) (c : Nat) (s : MState α) (hs : s.isSetup = true) (c' : Nat) (s' : MState α)
+    (h : solves cfg sch F built (c, s) hist = .ok (c', s'))
+    (hx : cfg.minC ≤ s.x e i ∧ s.x e i ≤ 1 - cfg.minC) :
+    s'.x e i = s.x e i := by
+  rw [(solves_eq_run cfg sch F built hist c s hs c' s' h).1]
+  exact run_fixed cfg sch F e i hp _ c s.x hx
+
+/-! ### the code before the repair: the shift is re-applied by every call -/
+
+/-- what a further `setup` of the unrepaired code does to a set-up model -/
+theorem setupUnguarded_again (cfg : Cfg α) (built : State α) (s s' : MState α) (hs : s.isSetup = true)
+    (h : setupUnguarded cfg built s = .ok s') (e i : Nat) :
+    s'.x e i = shiftClamp cfg.minC cfg.nAll (s.x e i) := by
+  unfold setupUnguarded at h
+  simp only [hs, if_true] at h
+  by_cases hb : sumExceeds cfg s.x = true
+  · simp [hb] at h
+  · simp only [hb, if_false] at h
+    cases h; rfl
+
+/-- **drift of the unrepaired code**: every further call removes exactly `nAll·minC` from every node
+that is above `(nAll+1)·minC`. -/
+theorem setupUnguarded_drift (cfg : Cfg α) (built : State α) (s s' : MState α) (hs : s.isSetup = true)
+    (h : setupUnguarded cfg built s = .ok s') (e i : Nat) (h0 : 0 ≤ cfg.nAll * cfg.minC)
+    (hv : cfg.minC + cfg.nAll * cfg.minC ≤ s.x e i) :
+    s'.x e i = s.x e i - cfg.nAll * cfg.minC := by
+  rw [setupUnguarded_again cfg built s s' hs h]
+  unfold shiftClamp clampLo shift
+  by_cases h1 : cfg.minC < s.x e i
+  · rw [if_pos h1, if_neg (not_lt.mpr (by linarith))]
+  · rw [if_neg h1, if_neg (not_lt.mpr (by linarith))]
+    linarith [not_lt.mp h1]
+
+/-- the unrepaired `setup` is idempotent only where nothing is above the minimum composition -/
+theorem setupUnguarded_idempotent_partial (cfg : Cfg α) (built : State α) (s s' : MState α)
+    (hs : s.isSetup = true) (h : setupUnguarded cfg built s = .ok s') (e i : Nat)
+    (hv : s.x e i = cfg.minC) : s'.x e i = s.x e i := by
+  rw [setupUnguarded_again cfg built s s' hs h, hv]
+  unfold shiftClamp clampLo shift
+  simp
+
+/-- concrete witness (ℚ): one element, two nodes at 1/2, minC = 1/100, two elements in all.
+The first call gives 48/100, the second 46/100: **not idempotent**. -/
+def witCfg : Cfg ℚ := { N := 2, E := 1, dz := 1, minC := 1/100, nAll := 2, bc := fun _ => ⟨.flux, 0, .flux, 0⟩ }
+
+theorem setupUnguarded_not_idempotent :
+    ∃ s1 s2 : MState ℚ,
+      setupUnguarded witCfg (fun _ _ => 1/2) ⟨fun _ _ => 0, false⟩ = .ok s1 ∧
+      setupUnguarded witCfg (fun _ _ => 1/2) s1 = .ok s2 ∧
+      s1.x 0 0 = 48/100 ∧ s2.x 0 0 = 46/100 := by
+  refine ⟨⟨fun e i => shiftClamp (1/100) 2 (applyBCInit 2 witCfg.bc (fun _ _ => 1/2) e i), true⟩,
+          ⟨fun e i => shiftClamp (1/100) 2 (shiftClamp (1/100) 2 (applyBCInit 2 witCfg.bc (fun _ _ => 1/2) e i)), true⟩,
+          ?_, ?_, ?_, ?_⟩
+  · unfold setupUnguarded
+    have : sumExceeds witCfg (applyBCInit witCfg.N witCfg.bc (fun _ _ => (1/2 : ℚ))) = false := by
+      simp [sumExceeds, witCfg, sumE, applyBCInit, List.range, List.range.loop]; norm_num
+    simp only [Bool.false_eq_true, if_false, this]
+    rfl
+  · unfold setupUnguarded
+    have : sumExceeds witCfg (fun e i => shiftClamp (1/100 : ℚ) 2
+          (applyBCInit 2 witCfg.bc (fun _ _ => 1/2) e i)) = false := by
+      simp [sumExceeds, witCfg, sumE, applyBCInit, shiftClamp, clampLo, shift, List.range, List.range.loop]; norm_num
+    simp only [if_true, this, Bool.false_eq_true, if_false]
+    rfl
+  · simp [witCfg, applyBCInit, shiftClamp, clampLo, shift]; norm_num
+  · simp [witCfg, applyBCInit, shiftClamp, clampLo, shift]; norm_num
+
+/-! ### volume-fixed frame -/
+
+theorem foldl_vflux (l : List Nat) (J u : Nat → α) (S a b : α) :
+    l.foldl (fun acc k => acc + (J k - u k * S)) (a - b * S)
+      = l.foldl (fun acc k => acc + J k) a - l.foldl (fun acc k => acc + u k) b * S := by
+  induction l generalizing a b with
+  | nil => rfl
+  | cons k r ih =>
+    simp only [List.foldl_cons]
+    have : a - b * S + (J k - u k * S) = (a + J k) - (b + u k) * S := by ring
+    rw [this, ih]
+
+/-- the frame change is linear: `Σ_subst Jv = Σ_subst J − (Σ_subst u)·Σ_subst J` -/
+theorem sumOver_vflux (subst : List Nat) (J u : Nat → α) :
+    sumOver subst (vflux subst J u) = sumOver subst J - sumOver subst u * sumOver subst J := by
+  simp only [sumOver, vflux]
+  have := foldl_vflux subst J u (subst.foldl (fun a k => a + J k) 0) 0 0
+  simpa using this
+
+/-- **volume-fixed frame**: the substitutional fluxes (reference element included) sum to zero when
+the substitutional u-fractions sum to one. -/
+theorem vflux_sum_zero (subst : List Nat) (J u : Nat → α) (hu : sumOver subst u = 1) :
+    sumOver subst (vflux subst J u) = 0 := by
+  rw [sumOver_vflux, hu]; ring
+
+theorem foldl_add_start (l : List Nat) (f : Nat → α) (a : α) :
+    l.foldl (fun acc k => acc + f k) a = a + l.foldl (fun acc k => acc + f k) 0 := by
+  induction l generalizing a with
+  | nil => simp
+  | cons k r ih =>
+    simp only [List.foldl_cons]
+    rw [ih (a + f k), ih (0 + f k)]; ring
+
+theorem sumOver_cons (k : Nat) (r : List Nat) (f : Nat → α) :
+    sumOver (k :: r) f = f k + sumOver r f := by
+  unfold sumOver
+  simp only [List.foldl_cons]
+  rw [foldl_add_start]; simp
+
+/-- consequence for the stored rows: the flux of the reference element (index 0, not stored; its
+composition is `1 − Σ x`) is minus the sum of the other substitutional volume-frame fluxes. -/
+theorem vflux_reference (rest : List Nat) (J u : Nat → α) (hu : sumOver (0 :: rest) u = 1) :
+    vflux (0 :: rest) J u 0 = - sumOver rest (vflux (0 :: rest) J u) := by
+  have h := vflux_sum_zero (0 :: rest) J u hu
+  rw [sumOver_cons] at h
+  linarith
+
+/-! ### non-vacuity: concrete data meeting the hypothesis sets -/
+
+/-- a closed two-node, one-element configuration over ℚ -/
+def exCfg : Cfg ℚ := { N := 2, E := 1, dz := 1, minC := 1/100, nAll := 2, bc := fun _ => ⟨.flux, 0, .flux, 0⟩ }
+/-- the same mesh with composition conditions on both sides -/
+def exCfgComp : Cfg ℚ := { N := 2, E := 1, dz := 1, minC := 1/100, nAll := 2, bc := fun _ => ⟨.comp, 1/4, .comp, 1/3⟩ }
+
+example : Closed (exCfg.bc 0) := ⟨rfl, rfl, rfl, rfl⟩
+example : (1:ℕ) ≤ exCfg.N ∧ exCfg.minC ≤ 1 - exCfg.minC := by simp [exCfg]; norm_num
+example : Pinned exCfgComp 0 0 := pinned_left exCfgComp (by simp [exCfgComp]) 0 rfl
+example : Pinned exCfgComp 0 1 := pinned_right exCfgComp (by simp [exCfgComp]) 0 rfl
+/-- clip inactive along a (one-step, Euler, interior flux 1/10 at face 1) run -/
+example : ClipInactive exCfg .euler (fun _ _ _ j => if j = 1 then 1/10 else 0) 0 0 (fun _ _ => 1/2) [1] := by
+  refine ⟨?_, trivial⟩
+  intro i hi
+  have hi' : i = 0 ∨ i = 1 := by simp [exCfg] at hi; omega
+  rcases hi' with rfl | rfl <;>
+    simp [stepRaw, eulerRaw, axpy, rhs, dXdt, applyBC, exCfg] <;> norm_num
+/-- u-fractions summing to one -/
+example : sumOver [0, 1] (fun k => if k = 0 then (1/4:ℚ) else 3/4) = 1 := by
+  simp [sumOver]; norm_num
+/-- a successful first setup -/
+example : ∃ s', setup exCfg (fun _ _ => 1/2) ⟨fun _ _ => 0, false⟩ = .ok s' := by
+  unfold setup
+  have : sumExceeds exCfg (applyBCInit exCfg.N exCfg.bc (fun _ _ => (1/2 : ℚ))) = false := by
+    simp [sumExceeds, exCfg, sumE, applyBCInit, List.range, List.range.loop]; norm_num
+  simp only [Bool.false_eq_true, if_false, this]
+  exact ⟨_, rfl⟩
+
 end KawinV.Props.C04
